@@ -287,7 +287,10 @@ Example C02_probtune_run_nonvacuous :
   = Some ([(2, (true, 0)); (0, (false, 1))]%nat, ([2; 2; 1; 3]%nat, (29 # 504, 29 # 504))).
 Proof. exact probtune_run_nonvacuous. Qed.
 
-(* ---- modularity_louvain_dir as it is (W never replaced by W1): the statement FAILS ---- *)
+(* ---- modularity_louvain_dir as it is (W never replaced by W1): the q statement FAILS, the label clause HOLDS ---- *)
+Theorem C02_louvain_dir_run_labels : forall rows g lv,
+  let r := run_louvain_dir rows g lv in exists k, labels_exact (length rows) (ret_ci r) k.
+Proof. exact louvain_dir_run_labels. Qed.
 Theorem C02_louvain_dir_q_refuted : ~ louvain_dir_q_full_statement.
 Proof. exact louvain_dir_q_refuted. Qed.
 
@@ -351,3 +354,4 @@ Print Assumptions C02_run_und_sign_consistent.
 Print Assumptions C02_run_finetune_und_labels.
 Print Assumptions C02_run_finetune_dir_labels.
 Print Assumptions C02_louvain_und_hierarchy.
+Print Assumptions C02_louvain_dir_run_labels.
